@@ -305,7 +305,7 @@ class MultiStream(Stream):
             self.set_total_flow(total_flow, units)
         
     def _init_indexer(self, flow, phases, chemicals, phase_flows):
-        if flow == ():
+        if not isinstance(flow, MolarFlowIndexer) and len(flow) == 0:
             if phase_flows:
                 imol = MolarFlowIndexer(phases, chemicals=chemicals, **phase_flows)
             else:
